@@ -76,6 +76,7 @@ def tables(rep, us):
     fc = uc.fn("crc32_normal") or uc.function_list[0]
     n = 0
     t256 = {}
+    tclass = {}
     for g in uc.global_list:
         nm = g["n"]
         if not nm.startswith("crc32_tbl256_"):
@@ -86,6 +87,8 @@ def tables(rep, us):
         cands = {"normal(poly)": crc_table(poly, False), "reflected(poly as given)": crc_table(poly, True),
                  "reflected(bit-reversed poly)": crc_table(bitrev32(poly), True)}
         hit = [k for k, t in cands.items() if t == vals]
+        if hit:
+            tclass[nm] = (hit[0].startswith("reflected"), bitrev32(poly) if hit[0] == "reflected(poly as given)" else poly)
         n += 1
         (rep.proved if hit else rep.violated)("R-TBL", fc, nm, "256-entry CRC table regenerates from the polynomial in its name",
                                               hit[0] if hit else "matches neither the normal nor the reflected table of 0x%08x" % poly)
@@ -100,6 +103,7 @@ def tables(rep, us):
         n += 1
         (rep.proved if ok else rep.violated)("R-TBL", fc, nm, "16-entry CRC table is every 16th entry of the 256-entry table")
     rep.floor("CRC tables", n, 8)
+    crc_wrappers(rep, uc, tclass)
     ux = us["src/utils/xml.c"]
     fx = ux.fn("xml_encode")
     for a, b in (("xml_tags", "xml_tags_counts"), ("xml_symbols", "xml_symbols_counts")):
@@ -129,6 +133,81 @@ def tables(rep, us):
         (rep.proved if ok else rep.violated)("R-TBL", fh, a, "%s[i] has the length recorded in %s[i]" % (a, b))
     hx = gv(us["src/utils/buf_str.c"], "hex_tbl", "cvt_bin2hex")
     (rep.proved if hx == "0123456789abcdef" else rep.violated)("R-TBL", us["src/utils/buf_str.c"].fn("cvt_bin2hex"), "hex-alphabet", "hex alphabet is 0-9a-f")
+
+
+def crc_wrappers(rep, uc, tclass):
+    """each crc32<x>_update / crc32<x> macro, expanded in a probe function: the table pair belongs to one polynomial,
+    the table orientation matches the routine (reflected / normal), and (poly, init, refin, xorout) equal the catalogue
+    parameters documented above the macro"""
+    import os, re
+    path = os.path.join(driver.REPO, "include/math/crc32.h")
+    src = open(path, encoding="utf-8", errors="replace").read()
+    names = re.findall(r"#define\s+(crc32\w*)_update\(", src)
+    cat = {}
+    for nm in names:
+        head = src[:src.index("#define %s_update(" % nm)]
+        m = list(re.finditer(r"width=32 poly=0x([0-9a-fA-F]+) init=0x([0-9a-fA-F]+) refin=(\w+) refout=(\w+)\s*\*?\s*xorout=0x([0-9a-fA-F]+)", head))
+        if m:
+            g = m[-1].groups()
+            cat[nm] = (int(g[0], 16), int(g[1], 16), g[2] == "true", int(g[4], 16))
+    txt = '#include <sys/param.h>\n#include <sys/types.h>\n#include <inttypes.h>\n#include <string.h>\n#include "%s"\n' % path
+    for nm in names:
+        txt += "uint32_t lcb_probe_u_%s(uint32_t c, const uint8_t *d, size_t n) { return (%s_update(c, d, n)); }\n" % (nm, nm)
+        txt += "uint32_t lcb_probe_o_%s(const uint8_t *d, size_t n) { return (%s(d, n)); }\n" % (nm, nm)
+    pu = driver.load_units([driver.UnitSpec("probe:crc32", "text", txt)])["probe:crc32"]
+    fc = uc.fn("crc32_normal") or uc.function_list[0]
+    n = 0
+    for nm in names:
+        for kind in ("u", "o"):
+            fn = pu.fn("lcb_probe_%s_%s" % (kind, nm))
+            if fn is None:
+                raise driver.AnalysisBroken("probe for %s did not compile" % nm)
+            call = None
+            outer_not = False
+            for bid in fn.reachable_blocks():
+                for e in fn.blocks[bid].elems:
+                    for x, ps in walk(e):
+                        if x.get("k") == "call" and x.get("fn") in ("crc32_reflect", "crc32_normal"):
+                            call = x
+                            outer_not = any(p.get("k") == "un" and p.get("op") == "~" for p in ps)
+            inst = "%s%s" % (nm, "_update" if kind == "u" else "")
+            desc = "%s uses one polynomial's tables in the orientation of its routine, with the documented parameters" % inst
+            if call is None:
+                rep.violated("R-TBL", fc, inst, desc, "no crc32_reflect/crc32_normal call in the expansion")
+                continue
+            n += 1
+            refl = call["fn"] == "crc32_reflect"
+            tabs = []
+            for a in call["args"][:2 if refl else 1]:
+                a0 = core.strip_casts(a)
+                tabs.append(a0["n"] if a0.get("k") == "ref" else None)
+            bad = []
+            cls = [tclass.get(t) for t in tabs if t]
+            if not tabs[0] or not tabs[0].startswith("crc32_tbl256_"):
+                bad.append("first table argument is %s, not a 256-entry table" % tabs[0])
+            if refl and tabs[1] is not None and not tabs[1].startswith("crc32_tbl16_"):
+                bad.append("second table argument is %s, not a 16-entry table" % tabs[1])
+            if refl and tabs[0] and tabs[1] and tabs[0].split("_")[-1] != tabs[1].split("_")[-1]:
+                bad.append("tables of different polynomials: %s and %s" % (tabs[0], tabs[1]))
+            c0 = tclass.get(tabs[0]) if tabs[0] else None
+            if c0 is not None and c0[0] != refl:
+                bad.append("%s table passed to the %s routine" % ("reflected" if c0[0] else "normal", "reflected" if refl else "normal"))
+            if nm in cat and c0 is not None:
+                poly, init, refin, xorout = cat[nm]
+                if c0[1] != poly:
+                    bad.append("table polynomial 0x%08x, documented 0x%08x" % (c0[1], poly))
+                if refin != refl:
+                    bad.append("documented refin=%s" % refin)
+                if (xorout == 0xffffffff) != outer_not or xorout not in (0, 0xffffffff):
+                    bad.append("documented xorout=0x%08x, result %s inverted" % (xorout, "is" if outer_not else "is not"))
+                if kind == "o":
+                    iv = const_val(call["args"][2 if refl else 1])
+                    if iv is None or (int(iv) & 0xffffffff) != init:
+                        bad.append("documented init=0x%08x, passes %s" % (init, iv))
+            elif nm not in cat:
+                bad.append("no catalogue parameters documented above the macro")
+            (rep.violated if bad else rep.proved)("R-TBL", fc, inst, desc, "; ".join(bad) if bad else "tables %s" % tabs)
+    rep.floor("CRC wrapper macros", n, 16)
 
 
 def digit_count_rule(rep, u):
